@@ -75,6 +75,7 @@ def run(prog, tier, extra=None):
     R1 = res.rule("C14.release", "removing pooled transactions releases their input reservations", floor=3)
     R2 = res.rule("C14.reserve", "inserting pooled transactions records their input reservations", floor=1)
     R4 = res.rule("C14.release-only-removed", "utxo_map entries are released only for transactions that left the pool", floor=3)
+    R5 = res.rule("C14.cached-work", "the cached routing work of the pool is reset or adjusted whenever pooled transactions are removed or inserted", floor=4)
     R3 = res.rule("C14.bundle-atomic", "bundle_block: no failure exit after the pool was drained without re-insertion", floor=1)
     fa = FieldAnalysis(prog)
     tx_sites, map_sites = {}, {}
@@ -189,6 +190,81 @@ def run(prog, tier, extra=None):
                                 "a pooled transaction spending that output loses its reservation and a conflicting spender can enter the pool"
                                 % (name, show(key)[:90]), b.loc(s_[1])))
             n += 1
+
+    # R5: the cached routing work follows the pool: after a removal the counter is reset-and-recomputed (a constant
+    # assignment, in this body or in a callee on the way out) or decremented; after an insertion it is incremented or reset
+    from ..callgraph import CallGraph
+    cg5 = CallGraph(prog, [u for u in prog.units if u.crate == "saito_core"])
+
+    def work_writes(b):
+        """{bb: kind} for writes of Mempool.routing_work_in_mempool: reset / add / sub / other"""
+        out = {}
+        chb = None
+        for bb, blk in enumerate(b.blocks):
+            for st in blk["s"]:
+                if st[0] == "=" and fa.has_field(b, st[1], MEMPOOL, "routing_work_in_mempool") is not None:
+                    chb = chb or Chaser(b)
+                    e = chb.rvalue(st[2], 0)
+                    kind = "other"
+                    if e[0] == "const":
+                        kind = "reset"
+                    for x in walk(e):
+                        if x[0] == "bin" and x[1].startswith("Add"):
+                            kind = "add"
+                        elif x[0] == "bin" and x[1].startswith("Sub"):
+                            kind = "sub"
+                        elif x[0] in ("call", "via") and x[1].rsplit("::", 1)[-1] in ("saturating_sub", "checked_sub", "wrapping_sub"):
+                            kind = "sub"
+                        elif x[0] in ("call", "via") and x[1].rsplit("::", 1)[-1] in ("saturating_add", "checked_add", "wrapping_add"):
+                            kind = "add"
+                    out[bb] = kind
+        return out
+    resets = {p for p, b in cg5.bodies.items() if "reset" in work_writes(b).values()}
+
+    def compensating_blocks(b, kinds):
+        blocks = {bb for bb, k in work_writes(b).items() if k in kinds}
+        if "reset" in kinds:
+            for bb, t in b.calls():
+                tgt = t.get("res") or t.get("callee")
+                if tgt in cg5.bodies and cg5.reachable_from([tgt], kinds=("call", "await")) & resets:
+                    blocks.add(bb)
+        return blocks
+    for path, (b, sites) in sorted(tx_sites.items()):
+        name = path.split("::", 4)[-1]
+        for s in sites:
+            bb = s[1]
+            if path in EXCEPTIONS:
+                continue
+            what = "::".join((s[2] if s[0] == "call" else "assignment").rsplit("::", 2)[-2:])
+            for klass, kinds, verb in (("remove", ("reset", "sub"), "removes"), ("insert", ("reset", "add"), "inserts")):
+                if not (s[3] == klass or (s[3] in ("replace", "unknown") and klass == "remove")):
+                    continue
+                res.instance(R5)
+                ok_closure = False
+                if s[0] == "call":
+                    for cb in closure_args(b, bb, prog):
+                        if any(k in kinds for k in work_writes(cb).values()):
+                            ok_closure = True
+                if ok_closure:
+                    continue
+                comp_exact = compensating_blocks(b, kinds)
+                if any(c != bb and b.dominates(c, bb) for c in comp_exact):
+                    # adjusted just before the mutation on every path that reaches it (e.g. `work += w; map.insert(..)`)
+                    res.sample({"rule": R5, "site": b.loc(bb), "body": name, "verdict": "cached work adjusted right before the mutation"})
+                    continue
+                comp = loop_relaxed(b, comp_exact)
+                t = b.term(bb)
+                start = t.get("t") if t["k"] == "call" else bb
+                ex = Explorer(b)
+                found = ex.explore(start, blocked=comp - {bb}, accept=success_exit(b)) if start is not None else {}
+                if found:
+                    p = sorted(found.items())[0][1]
+                    res.add(Finding(R5, "C14.cached-work|%s|%s|%s" % (path, klass, what),
+                                    "%s %s pooled transactions (%s) and can finish without adjusting the cached routing work of the pool: "
+                                    "the producer's estimate of available work no longer matches the pool" % (name, verb, what), b.loc(bb),
+                                    {"path": describe_path(b, [bb] + p)}))
+                else:
+                    res.sample({"rule": R5, "site": b.loc(bb), "body": name, "verdict": "cached work adjusted on every success path"})
 
     # R3
     bpath = CORE + "consensus::mempool::Mempool::bundle_block::{closure#0}"
